@@ -903,3 +903,63 @@ Proof.
   - eapply BlocksTotal5FuelDesc.nf_handle_description_list; exact Jc.
 Qed.
 Print Assumptions Blocks_total_partial_fuel_description_list.
+
+(* Step 2 (Proofs/BlocksTotal5Only.v): the list of what REMAINS, as a theorem.  An `only` walk (al = only (tree_sites ++
+   cur_sites ++ rem_sites)) of the whole parse, without any invariant: every Panic literal of the model is in that list
+   (checked at each occurrence) or belongs to a leaf function that is total for all arguments (trim / ltrim / rtrim,
+   unescape + shift_buf_left, unescape_html, manual_scan_link_url, table.rs row).  Intersected with the tree walk, the
+   cursor walk and the fuel walk: for EVERY input byte string and EVERY option set parse_blocks answers Ok, or Panic
+   at one of the 37 sites of rem_sites (pinned verbatim below), never OutOfFuel. *)
+From V Require Proofs.BlocksTotal5Only.
+
+Theorem Blocks_total_remaining_sites_list :
+  BlocksTotal5Only.rem_sites =
+  [ "mod.rs:finalize_borrowed:assert!(ast.open)";
+    "mod.rs:add_line:assert!(ast.open)";
+    "mod.rs:add_text_to_container:self.finalize(self.current).unwrap()";
+    "mod.rs:add_child:self.finalize(parent).unwrap()";
+    "mod.rs:add_line:str::from_utf8(&line[self.offset..]).unwrap()";
+    "mod.rs:handle_alert:String::from_utf8(tmp).unwrap()";
+    "mod.rs:handle_footnote:str::from_utf8(c).unwrap()";
+    "mod.rs:finalize_borrowed:String::from_utf8(tmp).unwrap()";
+    "mod.rs:resolve_reference_link_definitions:content[seeked..]";
+    "inlines.rs:link_label:str::from_utf8(raw_label).unwrap()";
+    "mod.rs:parse_reference_inline:String::from_utf8(clean_url).unwrap()";
+    "mod.rs:parse_reference_inline:String::from_utf8(clean_title).unwrap()";
+    "table.rs:try_inserting_table_header_paragraph:String::from_utf8(paragraph_content).unwrap()";
+    "strings.rs:split_off_front_matter:slice_from";
+    "strings.rs:split_off_front_matter:slice_to";
+    "strings.rs:line_at:slice";
+    "mod.rs:add_child:assert!(start_column > 0)";
+    "mod.rs:parse_html_block_prefix:unreachable!()";
+    "mod.rs:finalize_borrowed:self.line_number - 1";
+    "mod.rs:finalize_borrowed:assert!(pos < content.len())";
+    "mod.rs:finalize_borrowed:content.as_bytes()[pos]";
+    "table.rs:try_inserting_table_header_paragraph:content[..paragraph_offset]";
+    "table.rs:try_inserting_table_header_paragraph:container_ast.line_offsets[n]";
+    "table.rs:try_inserting_table_header_paragraph:start.line + newlines - 1";
+    "table.rs:try_opening_header:start.column + cell.start_offset - header_row.paragraph_offset";
+    "table.rs:try_opening_header:cell.end_offset - header_row.paragraph_offset";
+    "table.rs:try_opening_header:start.column + cell.start_offset - 1";
+    "table.rs:try_opening_header:.. + cell.internal_offset - header_row.paragraph_offset";
+    "table.rs:try_opening_header:content.len() - 2";
+    "table.rs:try_opening_header:content.len() - 2 - header_row.paragraph_offset";
+    "table.rs:try_opening_row:sourcepos.start.column + cell.start_offset - 1";
+    "inlines.rs:peek_char_n:assert!(*c > 0)";
+    "strings.rs:line_at:bytes[end..]";
+    "strings.rs:remove_trailing_blank_lines:line.len() - 1";
+    "strings.rs:chop_trailing_hashtags:line.len() - 1";
+    "strings.rs:chop_trailing_hashtags:line[n]";
+    "strings.rs:clean_title:title[1..title_len - 1]" ].
+Proof. reflexivity. Qed.
+Print Assumptions Blocks_total_remaining_sites_list.
+
+Theorem Blocks_total_partial_panic_only : forall o x s,
+  parse_blocks o x = Panic s -> In s BlocksTotal5Only.rem_sites.
+Proof. exact BlocksTotal5Only.parse_blocks_panic_rem. Qed.
+Print Assumptions Blocks_total_partial_panic_only.
+
+Theorem Blocks_total_partial_ok_or_remaining : forall o x,
+  (exists r, parse_blocks o x = Ok r) \/ (exists s, parse_blocks o x = Panic s /\ In s BlocksTotal5Only.rem_sites).
+Proof. exact BlocksTotal5Only.parse_blocks_ok_or_rem. Qed.
+Print Assumptions Blocks_total_partial_ok_or_remaining.
